@@ -15,7 +15,7 @@ T = "ChmpyVerif.Props.C11."
 THEOREMS = [T + n for n in (
     "decodeInt_encodeInt", "encodeInt_decodeInt", "encodeInt_range", "decodeStr_encodeStr_row", "decodeStr_encodeStr",
     "decode_ignores_spaces", "decode_ignores_case", "decodeRow_spellings", "closest_is_twelfth",
-    "digit_mod_lattice", "eq_mod_lattice", "apply_seitz_eq_apply", "cartesian_form_correct")]
+    "digit_mod_lattice", "eq_mod_lattice", "apply_seitz_eq_apply", "apply_seitz_direction", "apply_seitz_homogeneous", "cartesian_form_correct")]
 TRUSTED = [
     "hand model Model/SymOp.lean of encode/decode_symm_int, encode/decode_symm_str (regex as explicit tokenizer, Fraction() grammar "
     "without exponents/underscores), SymmetryOperation.__init__/__eq__/__hash__/__str__ with cached codes, apply",
@@ -32,7 +32,8 @@ MANIFEST = {
              "the reader ignores blanks and letter case (general lemmas) and accepts every term order / leading '+' / fraction-or-decimal spelling "
              "of a row (finite family, kernel-checked); operations whose translations differ by an integer plus noise below 1/24 have equal codes, "
              "hashes and strings; 3-vector, homogeneous and Cartesian application agree (matrix algebra over any commutative ring given D·D⁻¹=1). "
-             "Model is hand-written and tied by a correspondence run; thorough tier enumerates all 34,012,224 codes on the real code."),
+             "Model is hand-written and tied by a correspondence run; thorough tier enumerates all 34,012,224 codes on the real code."
+             " On general homogeneous vectors the 4x4 form rotates directions (w = 0) and maps (w·x, w) to w times the image of x (apply_seitz_direction, apply_seitz_homogeneous)."),
     "note": ("Trusted: Lean kernel + standard axioms; hand model of the regex tokenizer and of Fraction(str); floats as exact rationals; "
              "limit_denominator(12) = nearest twelfth; the correspondence/oracle runs."),
     "technique": "Lean 4 proof (omega digit arithmetic, decide +kernel over row tables, list lemmas, Mathlib matrix algebra) + model/implementation correspondence",
@@ -116,10 +117,11 @@ def impl(op, arg):
             s = S(np.array(rot, dtype=float).reshape(3, 3), np.array(tr, dtype=float))
             return f"{int(s.integer_code)} | {s}"
         if op == "apply":
-            rot, tr, x = arg
+            rot, tr, x = arg[:3]
+            w = arg[3] if len(arg) > 3 else 1.0
             s = S(np.array(rot, dtype=float).reshape(3, 3), np.array(tr, dtype=float))
             r3 = s.apply(np.array([x], dtype=float))[0]
-            r4 = s.apply(np.array([list(x) + [1.0]], dtype=float))[0]
+            r4 = s.apply(np.array([list(x) + [w]], dtype=float))[0]
             sh = lambda v: " ".join(str(int(round(float(q) * 1e9))) for q in v)
             return f"{sh(r3)} | {sh(r4)}"
     except Exception as e:  # noqa
@@ -135,7 +137,8 @@ def line(op, arg):
     if op == "mk":
         return "mk " + " ".join(str(r) for r in arg[0]) + " " + " ".join(rat(t) for t in arg[1])
     if op == "apply":
-        return "apply " + " ".join(str(r) for r in arg[0]) + " " + " ".join(rat(t) for t in arg[1]) + " " + " ".join(rat(t) for t in arg[2])
+        return ("apply " + " ".join(str(r) for r in arg[0]) + " " + " ".join(rat(t) for t in arg[1]) + " " + " ".join(rat(t) for t in arg[2])
+                + ((" " + rat(arg[3])) if len(arg) > 3 else ""))
 
 
 # --- generators ------------------------------------------------------------------
@@ -233,6 +236,7 @@ def correspond(ctx):
         add("mk", (rot, tr))
         x = [rng.choice([0.0, 0.5, 0.25, 0.125, 0.3, 0.71, -1.2, 2.375]) for _ in range(3)]
         add("apply", (rot, [k / 12 for k in digs], x))
+        add("apply", (rot, [k / 12 for k in digs], x, rng.choice([0.0, 2.0, -1.0, 0.5, 0.25])))      # general homogeneous coordinate w
     core.correspond_lines(ctx, "C11", cases)
 
 
